@@ -1592,6 +1592,24 @@ def extract_closure(src, spec, unit_rules):
             if len(c) <= rg.get("n", 0):
                 raise LostAnchor(f"if `{rg.get('cond_matches') or rg.get('cond_contains')}` of {spec['path']}")
             body, is_block = list(c[rg.get("n", 0)]["range"]), False
+        elif rg["kind"] == "block_stmts":
+            # the statements of the innermost block one of whose OWN statements matches a regex (over its
+            # whitespace-free text), from the first such statement to the end of that block
+            cands = []
+            for bn in fn["nodes"]:
+                if bn["kind"] != "stmts_block":
+                    continue
+                st = bn.get("stmts") or []
+                hit = [i for i, r_ in enumerate(st) if re.match(rg["from_matches"], re.sub(r"\s+", "", src.text(*r_)))]
+                if hit:
+                    cands.append((bn["range"][1] - bn["range"][0], st, hit[0]))
+            if not cands:
+                raise LostAnchor(f"statement matching `{rg['from_matches']}` of {spec['path']}")
+            _, st, i0 = (max if rg.get("pick") == "outermost" else min)(cands, key=lambda c: c[0])
+            e = st[-1][1]
+            if src.data[e:e + 1] == b";":
+                e += 1
+            body, is_block = [st[i0][0], e], False
         elif rg["kind"] == "match":
             # the `match` expression whose scrutinee mentions a text: its value is the function's result
             c = [n for n in fn["nodes"] if n["kind"] == "match" and rg["scrutinee_contains"].replace(" ", "") in n["scrutinee_text"].replace(" ", "")]
